@@ -459,6 +459,9 @@ func (c *Context) onWatch(_ *messages.WatchMessage) {
 	// 检查是否已经监听
 	full := fmt.Sprintf("%s@%s", sender.GetAddress(), sender.GetPath())
 	if _, exists := c.watchers[full]; exists {
+		// 同一身份（地址@路径）只登记一次，但需保留最新的引用：已登记的引用可能属于同名的上一个实例，
+		// 本地引用会缓存其解析到的邮箱，旧实例终止后该邮箱已失效，若继续沿用，死亡通知将沦为死信而新的监听者收不到通知。
+		c.watchers[full] = sender
 		c.Logger().Debug("watcher already exists", log.String("ref", c.ref.GetPath()), log.String("address", sender.GetAddress()), log.String("path", sender.GetPath()))
 		return
 	}
